@@ -112,6 +112,8 @@ pub fn shared_stream_spaces(ctx: &Ctx, st: &mut Local, f: Sink) {
         let lens: &[u16] = if ctx.quick() { &[3, 4, 258] } else { &[3, 4, 5, 10, 11, 257, 258] };
         e4_single(ctx, "E4s", lens, &dists, st, f);
     }
+    e4_runs(ctx, "E4run", st, f);
+    e6_chainspace(ctx, "E6chain", st, f);
     let comps: Vec<Comp> = if ctx.quick() {
         let mut v = comp::zlib_grid_quick();
         v.extend(comp::other_comps());
